@@ -212,6 +212,7 @@ type OpOutcome struct {
 	Yields    int64    `json:"yields"`
 	SimStart  int64    `json:"simStartNs"`
 	SimEnd    int64    `json:"simEndNs"`
+	StallNs   int64    `json:"stallNs,omitempty"` // simulated time the calling thread itself was descheduled during the op
 	Delivered int      `json:"delivered"` // bytes the device handed to the library
 	Fired     []string `json:"fired,omitempty"`
 	// Snapshot violations found after the op (C10): human-readable, first few.
